@@ -137,6 +137,79 @@ func unmarshalCase(k *engine.Case) {
 }
 
 func unmarshalOne(k *engine.Case, buf []byte, how string) {
+	unmarshalDirect(k, buf, how)
+	if caseFailed {
+		return
+	}
+	unmarshalFromData(k, buf, how)
+}
+
+// unmarshalFromData pushes the same bytes through the block constructors, which decode
+// into a bitmap of their own making ("a fresh bitmap"): same verdicts as the direct route.
+// Failing inputs come first in most batches, so a constructor that lets a failed decode
+// leak into the next one shows as a wrong set here.
+func unmarshalFromData(k *engine.Case, buf []byte, how string) {
+	want, defined, why := denote(buf)
+	in := append([]byte(nil), buf...)
+	var bm bitmap1024.Bit1024
+	var err error
+	via := "NewBigU32FromData"
+	start := uint32(k.R.Intn(1 << 22))
+	tip := k.R.Intn(2) == 0
+	if tip {
+		via = "NewU32BitTipFromData"
+	}
+	if p := try(func() {
+		if tip {
+			var x *bitmap1024.U32BitTip
+			if x, err = bitmap1024.NewU32BitTipFromData(start, in); err == nil {
+				bm = x.B1024
+			}
+		} else {
+			var x *bitmap1024.BigU32
+			if x, err = bitmap1024.NewBigU32FromData(start, in); err == nil {
+				bm = x.B1024
+			}
+		}
+	}); p != nil {
+		k.Logf("%s %s len=%d bytes=%s -> PANIC %v", via, how, len(buf), hexs(buf), p)
+		fail(k, "panic", "%s panicked on %d bytes %s: %v", via, len(buf), hexs(buf), p)
+		return
+	}
+	k.Evals(1)
+	k.Count("unmarshal.fromdata_inputs", 1)
+	if err != nil {
+		if defined {
+			b := want.bitmap()
+			var canon []byte
+			if p := try(func() { canon = b.Marshal() }); p == nil && bytes.Equal(canon, buf) {
+				k.Logf("%s %s len=%d bytes=%s -> error %q but Marshal(%s) yields these bytes", via, how, len(buf), hexs(buf), err.Error(), &want)
+				fail(k, "roundtrip-error", "%s refused %d bytes that are the Marshal output of %s: %v", via, len(buf), &want, err)
+			}
+		}
+		k.Count("unmarshal.fromdata_err", 1)
+		return
+	}
+	if bm == nil {
+		k.Logf("%s %s len=%d -> nil bitmap without error", via, how, len(buf))
+		fail(k, "unmarshal-wrong-set", "%s(%d, %d bytes) returned no error and a nil bitmap", via, start, len(buf))
+		return
+	}
+	got, ok := readBitmap(bm)
+	if !defined {
+		k.Logf("%s %s len=%d bytes=%s -> accepted as %s, but the bytes denote nothing (%s)", via, how, len(buf), hexs(buf), &got, why)
+		fail(k, "unmarshal-accepted-"+why, "%s accepted %d bytes that denote no set (%s) and produced %s; bytes=%s", via, len(buf), why, &got, hexs(buf))
+		return
+	}
+	if !ok || got != want {
+		k.Logf("%s %s len=%d bytes=%s -> %s, denoted %s", via, how, len(buf), hexs(buf), &got, &want)
+		fail(k, "unmarshal-wrong-set", "%s of %d bytes (%s encoding) gives %s, the bytes denote %s; bytes=%s", via, len(buf), why, &got, &want, hexs(buf))
+		return
+	}
+	k.Count("unmarshal.fromdata_ok", 1)
+}
+
+func unmarshalDirect(k *engine.Case, buf []byte, how string) {
 	k.Evals(1)
 	k.Count("unmarshal.inputs", 1)
 	k.Count("unmarshal.gen_"+how, 1)
